@@ -594,13 +594,17 @@ tzm_check(const char *fn)
 
 		while (p < ep) {
 			const char *mn = (const void*)p;
-			size_t mz = strlen(mn);
+			size_t mz = strnlen(mn, (const char*)ep - mn);
 			znoff_t off;
 			const char *zn;
 			size_t zz;
 
-			p += (mz - 1U) / sizeof(*p) + 1U;
-			off = be32toh(*p++) >> 8U;
+			if (!mz || (p += (mz - 1U) / sizeof(*p) + 1U) >= ep ||
+			    (off = be32toh(*p++) >> 8U) >= tzm_zname_size(m)) {
+				error("`%s' is not a well-formed tzmap", fn);
+				rc = -1;
+				break;
+			}
 
 			zn = m->data + off;
 			zz = strlen(zn);
@@ -746,11 +750,15 @@ cmd_show(const struct yuck_cmd_show_s argi[static 1U])
 
 		while (p < ep) {
 			const char *mn = (const void*)p;
-			size_t mz = strlen(mn);
+			size_t mz = strnlen(mn, (const char*)ep - mn);
 			znoff_t off;
 
-			p += (mz - 1U) / sizeof(*p) + 1U;
-			off = be32toh(*p++) >> 8U;
+			if (!mz || (p += (mz - 1U) / sizeof(*p) + 1U) >= ep ||
+			    (off = be32toh(*p++) >> 8U) >= tzm_zname_size(m)) {
+				error("`%s' is not a well-formed tzmap", fn);
+				rc = 1;
+				break;
+			}
 
 			/* actually print the strings */
 			fputs(mn, stdout);
